@@ -127,10 +127,12 @@ def gen_cases(ctx):
         # sampling
         if q:
             n = rng.choice([16, 16, 24, 32, 32, 48, 64, 17, 33, 21])
-            g = rng.choice([64, 64, 128, 128, 128, 256])
+            # powers of two, round sizes and sizes with a large prime factor (FFT back-ends treat them differently)
+            g = rng.choice([64, 64, 128, 128, 256, 94, 118, 122, 134, 166, 202, 254, 100, 150])
         else:
             n = rng.choice([16, 20, 24, 32, 32, 40, 48, 64, 64, 96, 128, 17, 33, 65, 21, 31, 41])
-            g = rng.choice([64, 64, 128, 128, 128, 256, 256, 100, 200])
+            g = rng.choice([64, 64, 128, 128, 128, 256, 256, 100, 200, 94, 118, 122, 134, 142, 158, 166, 178,
+                            202, 206, 214, 254, 97, 127])
         if g < n:
             g = 256
         waves = rng.choice([0.0, 0.0, 0.05, 0.25, 0.5, 1.0, 2.0, 5.0, 10.0, 20.0, 40.0]) * rng.choice([1, -1])
@@ -167,7 +169,7 @@ def gen_cases(ctx):
         lens, fam, solve = gen_lens_desc(rng)
         case = {'kind': 'psf', 'big': True, 'lens': lens, 'family': fam, 'solve': solve,
                 'n': rng.choice([64, 128] if q else [64, 128, 200, 256]),
-                'g': rng.choice([512] if q else [512, 1000, 1024, 2048]),
+                'g': rng.choice([512, 334] if q else [512, 1000, 1024, 2048, 334, 1006, 1018, 502]),
                 'Hy': rng.choice([0.0, 1.0]), 'wi': 0, 'defocus_waves': rng.choice([0.0, 0.5, 3.0])}
         if finalize_case(ctx, case):
             cases.append(case)
